@@ -26,6 +26,7 @@ import (
 	"github.com/pkg/errors"
 	"github.com/prometheus/prometheus/config"
 	"github.com/prometheus/prometheus/model/labels"
+	"gopkg.in/yaml.v2"
 )
 
 const (
@@ -109,10 +110,27 @@ func (c *ConfigManager) ReloadFromRaw(data []byte) (err error) {
 		return errors.Wrapf(err, "marshal config")
 	}
 
+	// hashstructure skips unexported struct fields, so settings the library keeps in such fields
+	// (the pattern of a relabel regex, the user info of an URL) would not reach the hash:
+	// hash the parsed document as well, it contains every setting exactly as written
+	var document map[string]interface{}
+	if err := yaml.Unmarshal(data, &document); err != nil {
+		return errors.Wrapf(err, "marshal config")
+	}
+	if global, ok := document["global"].(map[interface{}]interface{}); ok {
+		delete(global, "external_labels")
+		if len(global) == 0 {
+			delete(document, "global")
+		}
+	}
+
 	// config hash don't include external labels
 	eLb := info.Config.GlobalConfig.ExternalLabels
 	info.Config.GlobalConfig.ExternalLabels = []labels.Label{}
-	hash, err := hashstructure.Hash(info.Config, hashstructure.FormatV2, nil)
+	hash, err := hashstructure.Hash(struct {
+		Config   *config.Config
+		Document map[string]interface{}
+	}{info.Config, document}, hashstructure.FormatV2, nil)
 	if err != nil {
 		return errors.Wrapf(err, "get config hash")
 	}
